@@ -295,6 +295,35 @@ def getLink (links : Dict) (name : Str) : Option Str :=
       let rel' := if rel.getLast? = some '$' then rel.dropLast ++ name else rel
       some (base ++ '/' :: rel')
 
+/-! ## one reader used over time: a sequence of `update` and `getLink` calls -/
+
+/-- a call on one `SphinxInventory`: `update(cache, url)` (with what the cache, zlib and the
+decoder do for it) or `getLink(name)` -/
+inductive Step
+  | upd (unzip : Bytes → Option Bytes) (decode : Bytes → Option Str) (url : Str) (data : Option Bytes)
+  | ask (name : Str)
+
+def Step.isUpd : Step → Bool
+  | .upd .. => true
+  | .ask _ => false
+
+/-- one call: new reader state and what the call returned (`getLink`'s answer, or for `update`
+whether it returned or raised).  `getLink` reads `_links` and nothing else; the reader keeps no
+other state. -/
+def step (toInt : Str → Option Int) (st : State) : Step → State × (Outcome Unit ⊕ Option Str)
+  | .upd unzip decode url data =>
+    let r := update unzip decode toInt st url data
+    (r.1, .inl r.2)
+  | .ask name => (st, .inr (getLink st.links name))
+
+/-- the calls in order; returns the final state and every call's result -/
+def runSteps (toInt : Str → Option Int) : State → List Step → State × List (Outcome Unit ⊕ Option Str)
+  | st, [] => (st, [])
+  | st, s :: ss =>
+    let r := step toInt st s
+    let rest := runSteps toInt r.1 ss
+    (rest.1, r.2 :: rest.2)
+
 /-! ## writer -/
 
 /-- the `isinstance` chain of `_generateLine` (`package` is a `Module`; `method` is a `Function`
